@@ -128,7 +128,7 @@ set_option maxHeartbeats 800000 in
 /-- **rotation of the first setup of a loop body, with carried values.** -/
 theorem rot_loop_C (gh : Bool) (a : AccId) (fs : List (Field × Var)) (pre pre' after' tails : List Stmt) (lb ub st iv : Var)
     (fresh : Nat) (params0 params1 : List (Var × Var))
-    (hs : RotSide fs pre (after' ++ tails) lb ub st iv fresh)
+    (hs : RotSide a fs pre (after' ++ tails) lb ub st iv fresh)
     (hc : CarryOK fs pre pre' tails iv fresh params0 params1)
     (c0l c1l : List Stmt) (m0 m1 : List (Var × Var)) (next f1 : Nat)
     (hc0 : cloneChain (inputChain pre'.reverse (fs.map (·.2))) ((iv, lb) :: params0) fresh = (c0l, m0, next))
@@ -189,35 +189,32 @@ theorem rot_loop_C (gh : Bool) (a : AccId) (fs : List (Field × Var)) (pre pre' 
     (fun k x => x.env st = runPure cfg c0l u.env st ∧
       ∀ p ∈ fs, x.regs a p.1 = runPure cfg pre (setEnv x.env iv (runPure cfg c0l u.env lb + (k : Int) * runPure cfg c0l u.env st)) p.2)
   · intro k x ⟨hxst, hinv⟩
-    have hw1 := exec_pure_list cfg gh pre hs.hpure
+    obtain ⟨hW1env, hW1regs⟩ := exec_quiet_list cfg gh a pre hs.hpure
       { x with env := setEnv x.env iv (runPure cfg c0l u.env lb + (k : Int) * runPure cfg c0l u.env st) }
+    generalize hW1 : execB cfg gh (Block.ofList pre)
+      { x with env := setEnv x.env iv (runPure cfg c0l u.env lb + (k : Int) * runPure cfg c0l u.env st) } = W1 at hW1env hW1regs
     have hb1 : ∀ rest, execB cfg gh (Block.ofList (pre ++ rest))
           { x with env := setEnv x.env iv (runPure cfg c0l u.env lb + (k : Int) * runPure cfg c0l u.env st) }
-        = execB cfg gh (Block.ofList rest)
-          { x with env := runPure cfg pre (setEnv x.env iv (runPure cfg c0l u.env lb + (k : Int) * runPure cfg c0l u.env st)) } :=
-      fun rest => by rw [execL_append, hw1]
+        = execB cfg gh (Block.ofList rest) W1 :=
+      fun rest => by rw [execL_append, hW1]
     have hb2 : ∀ rest, execB cfg gh (Block.ofList (pre ++ (Stmt.setup a fs :: rest)))
           { x with env := setEnv x.env iv (runPure cfg c0l u.env lb + (k : Int) * runPure cfg c0l u.env st) }
-        = execB cfg gh (Block.ofList rest)
-          { x with env := runPure cfg pre (setEnv x.env iv (runPure cfg c0l u.env lb + (k : Int) * runPure cfg c0l u.env st)) } :=
+        = execB cfg gh (Block.ofList rest) W1 :=
       fun rest => by
-        rw [execL_append, hw1]
-        exact exec_setup_noop cfg gh a fs rest _ hinv
+        rw [execL_append, hW1]
+        exact exec_setup_noop cfg gh a fs rest _ (fun p hp => by rw [hW1regs, hW1env]; exact hinv p hp)
     constructor
     · rw [hb1, hb2]
     · rw [hb2]
       rw [execL_append, execL_append, execL_append,
         exec_pure_list cfg gh (Stmt.pure next PureOp.add [iv, st] :: c1l) (by simp [isPure, hp1l]),
         exec_pure_list cfg gh tails hc.htp]
-      generalize hw2 : execB cfg gh (Block.ofList after')
-        { x with env := runPure cfg pre (setEnv x.env iv (runPure cfg c0l u.env lb + (k : Int) * runPure cfg c0l u.env st)) } = w2
+      generalize hw2 : execB cfg gh (Block.ofList after') W1 = w2
       have h2iv : w2.env iv = runPure cfg c0l u.env lb + (k : Int) * runPure cfg c0l u.env st := by
-        rw [← hw2, envB_frame cfg gh _ iv hiv_after]
-        show runPure cfg pre _ iv = _
+        rw [← hw2, envB_frame cfg gh _ iv hiv_after, hW1env]
         rw [runPure_frame cfg pre _ iv hs.hiv]; simp [setEnv]
       have h2st : w2.env st = runPure cfg c0l u.env st := by
-        rw [← hw2, envB_frame cfg gh _ st hst_after]
-        show runPure cfg pre _ st = _
+        rw [← hw2, envB_frame cfg gh _ st hst_after, hW1env]
         rw [runPure_frame cfg pre _ st hst_pre]; simp [setEnv, hs.hne, hxst]
       simp only [Block.ofList, execB, execS, runPure, stepPure, PureOp.eval, List.map]
       -- the environment in which the clones ran, and after them
@@ -378,7 +375,7 @@ theorem aliasStep_ok (gh : Bool) (s : Stmt) (A : List (Var × Var)) (u : St) (h 
 
 theorem carry_unpack {A : List (Var × Var)} {a : AccId} {fs : List (Field × Var)} {pre after : List Stmt} {lb ub st iv : Var}
     {fresh : Nat} (h : rotGuardC true A a fs pre after lb ub st iv fresh = true) :
-    RotSide fs pre after lb ub st iv fresh ∧
+    RotSide a fs pre after lb ub st iv fresh ∧
     CarryOK fs pre (pre.drop (nHeads pre after)) (after.drop (after.length - nTails pre after)) iv fresh
       (dropMid (params0T A (pre.take (nHeads pre after))))
       (dropMid (params1T (pre.take (nHeads pre after)) (after.drop (after.length - nTails pre after)))) ∧
@@ -500,7 +497,7 @@ theorem rotC_erase_aux (gh : Bool) (j fresh : Nat) : (blk : Block) → ∀ (A : 
       refine ⟨_, loopOverlapC_zero_intro true false true j fresh A F lb ub st iv body r a fs after hdrop hg, ?_⟩
       intro u hu
       obtain ⟨hs, hc, hp0⟩ := carry_unpack hg
-      have hs' : RotSide fs (body.toList.take j)
+      have hs' : RotSide a fs (body.toList.take j)
           (after.take (after.length - nTails (body.toList.take j) after) ++
             after.drop (after.length - nTails (body.toList.take j) after)) lb ub st iv fresh := by
         rw [List.take_append_drop]; exact hs
